@@ -112,6 +112,30 @@ SPECIAL_FLOATS = [0.0, -0.0, 1.0, -1.5, 1e300, -1e-300, 5e-324, float('inf'), fl
                   3.4028234663852886e+38, 1.401298464324817e-45, 0.1, 16777217.0]
 
 
+def _f32(x):
+    return struct.unpack('>f', struct.pack('>f', x))[0]
+
+
+def boundary_floats():
+    """Doubles at and next to the values single precision can hold (an encoder that picks the 4-byte form for a double
+    that is only close to a single loses bits), around the single-precision range limits, halfway between singles."""
+    import math
+    out = []
+    bases = [1.0, -1.0, 0.5, _f32(0.1), _f32(1.0 / 3), _f32(math.pi), 3.4028234663852886e+38, -3.4028234663852886e+38,
+             1.1754943508222875e-38, 1.401298464324817e-45, 16777216.0, 65504.0, _f32(1e10), _f32(1e-10), _f32(-2.7e20)]
+    for b in bases:
+        for direction in (math.inf, -math.inf):
+            x = b
+            for _ in range(3):
+                x = math.nextafter(x, direction)
+                out.append(x)
+        out.append(b)
+        nb = _f32(math.nextafter(b, math.inf) * (1 + 2.0 ** -23)) if abs(b) < 3e38 else b
+        out.append((b + nb) / 2)           # halfway between two singles
+    out += [3.5e38, -3.5e38, 1e39, 3.4028235677973366e+38, 7e-46, 2.2250738585072014e-308, 1.7976931348623157e308]
+    return out
+
+
 def rand_scalar(rng, key=False):
     t = rng.randrange(8 if not key else 6)
     if t == 0:
@@ -130,8 +154,16 @@ def rand_scalar(rng, key=False):
             return rng.randrange(-2 ** 63, 2 ** 64)
         return rng.randrange(-2 ** 17, 2 ** 17)
     if t == 3:
-        if rng.random() < 0.5:
+        y = rng.random()
+        if y < 0.4:
             x = rng.choice(SPECIAL_FLOATS)
+        elif y < 0.6:
+            # a double a few steps away from a value single precision holds exactly
+            import math
+            x = struct.unpack('>f', (rng.getrandbits(32) & 0xff7fffff | (rng.getrandbits(1) << 23)).to_bytes(4, 'big'))[0]
+            if x == x and abs(x) != math.inf:
+                for _ in range(rng.randrange(0, 3)):
+                    x = math.nextafter(x, rng.choice((math.inf, -math.inf)))
         else:
             x = struct.unpack('>d', rng.getrandbits(64).to_bytes(8, 'big'))[0]
         if key and x != x:
